@@ -41,9 +41,10 @@ End PathInd.
 
 Section Proofs.
 Variable pk : path -> option bool.
+Variable deep : path -> list bool.
 
-Notation gm := (get_mutability false pk).
-Notation susp := (suspect pk).
+Notation gm := (get_mutability false false pk deep).
+Notation susp := (suspect pk deep).
 
 Lemma same_pk_eq a b : same_pk a b = true -> a = b.
 Proof.
@@ -55,8 +56,8 @@ Qed.
 Lemma gm_characterised : forall e a d,
   susp e d = false ->
   if d then is_mutable (gm e a true) = true <-> pk e = Some true
-  else (place pk e = Mut -> is_mutable (gm e a false) = true)
-       /\ (is_mutable (gm e a false) = true -> place pk e <> Immut).
+  else (place pk deep e = Mut -> is_mutable (gm e a false) = true)
+       /\ (is_mutable (gm e a false) = true -> place pk deep e <> Immut).
 Proof.
   induction e as [id mu v IH|id mu|i|g|p IH f|p IH|p IH|p IH|p IH|p IH|m p IH|id|id| |id] using path_ind2;
     intros a d Hs.
@@ -83,19 +84,21 @@ Proof.
   - (* PField *)
     destruct d; cbn [suspect] in Hs.
     + cbn [get_mutability]. destruct (pk (PField p f)) as [[|]|]; cbn; split; intros; congruence.
-    + cbn [get_mutability place orb]. unfold is_pointer, through.
+    + apply orb_false_iff in Hs. destruct Hs as [Hdi Hs].
+      cbn [get_mutability place orb]. unfold is_pointer, through_auto. rewrite Hdi.
       destruct (pk p) as [[|]|] eqn:Ep.
       * specialize (IH a true Hs). cbn beta iota in IH.
-        split; [intros _; apply IH; reflexivity|destruct (via_immut pk p); discriminate].
+        split; [intros _; apply IH; reflexivity|destruct (via_immut pk deep p); discriminate].
       * specialize (IH a true Hs). cbn beta iota in IH. split; [discriminate|].
         intros E. apply IH in E. congruence.
       * exact (IH a false Hs).
   - (* PIndex *)
     destruct d; cbn [suspect] in Hs; [discriminate|].
-    cbn [get_mutability place orb]. unfold is_pointer, through.
+    apply orb_false_iff in Hs. destruct Hs as [Hdi Hs].
+    cbn [get_mutability place orb]. unfold is_pointer, through_auto. rewrite Hdi.
     destruct (pk p) as [[|]|] eqn:Ep.
     + specialize (IH a true Hs). cbn beta iota in IH.
-      split; [intros _; apply IH; reflexivity|destruct (via_immut pk p); discriminate].
+      split; [intros _; apply IH; reflexivity|destruct (via_immut pk deep p); discriminate].
     + specialize (IH a true Hs). cbn beta iota in IH. split; [discriminate|].
       intros E. apply IH in E. congruence.
     + exact (IH a false Hs).
@@ -104,7 +107,7 @@ Proof.
     cbn [get_mutability place]. unfold through.
     specialize (IH a true Hs). cbn beta iota in IH.
     destruct (pk p) as [[|]|] eqn:Ep.
-    + split; [intros _; apply IH; reflexivity|destruct (via_immut pk p); discriminate].
+    + split; [intros _; apply IH; reflexivity|destruct (via_immut pk deep p); discriminate].
     + split; [discriminate|]. intros E. apply IH in E. congruence.
     + split; discriminate.
   - (* PParen *)
@@ -147,93 +150,120 @@ Proof.
 Qed.
 
 Theorem assign_sound e :
-  susp e false = false -> assign_accepted false pk e = true -> place pk e <> Immut.
+  susp e false = false -> assign_accepted false false pk deep e = true -> place pk deep e <> Immut.
 Proof. intros Hs. exact (proj2 (gm_characterised e true false Hs)). Qed.
 
 Theorem assign_complete e :
-  susp e false = false -> place pk e = Mut -> assign_accepted false pk e = true.
+  susp e false = false -> place pk deep e = Mut -> assign_accepted false false pk deep e = true.
 Proof. intros Hs. exact (proj1 (gm_characterised e true false Hs)). Qed.
 
 Theorem ref_mut_sound e :
-  susp e false = false -> ref_mut_accepted false pk e = true -> place pk e <> Immut.
+  susp e false = false -> ref_mut_accepted false false pk deep e = true -> place pk deep e <> Immut.
 Proof. intros Hs. exact (proj2 (gm_characterised e false false Hs)). Qed.
 
 Theorem ref_mut_complete e :
-  susp e false = false -> place pk e = Mut -> ref_mut_accepted false pk e = true.
+  susp e false = false -> place pk deep e = Mut -> ref_mut_accepted false false pk deep e = true.
 Proof. intros Hs. exact (proj1 (gm_characterised e false false Hs)). Qed.
 
 Theorem deref_type_directed e a :
   susp e true = false -> (is_mutable (gm e a true) = true <-> pk e = Some true).
 Proof. intros H. exact (gm_characterised e a true H). Qed.
 
-(* ---- the repaired variant (through_pointer) ------------------------------------------ *)
-Notation gmx := (get_mutability true pk).
+(* ---- the repaired variants ------------------------------------------------------------
+   gm1 = /repo 1af504c (through_pointer, outermost level), gm2 = proposed (every auto-deref level) *)
+Notation gm1 := (get_mutability true false pk deep).
+Notation gm2 := (get_mutability true true pk deep).
 
-Lemma through_pointer_not_immut p r :
-  is_mutable (through_pointer true pk p r) = true -> pk p <> Some false /\ is_mutable r = true.
+Lemma tp_mut f2 au p r :
+  is_mutable (through_pointer true f2 pk deep au p r) = true ->
+  pk p <> Some false /\ is_mutable r = true /\ (f2 && au = true -> deep_immut pk deep p = false).
 Proof.
-  unfold through_pointer. destruct r; cbn; try discriminate.
-  destruct (pk p) as [[|]|]; cbn; intros H; try discriminate; split; congruence.
+  unfold through_pointer. destruct r; cbn [is_mutable]; try discriminate.
+  destruct (pk p) as [[|]|] eqn:Ep; cbn [is_mutable]; try discriminate.
+  - destruct (f2 && au && deep_immut pk deep p) eqn:E; cbn [is_mutable]; [discriminate|].
+    intros _. split; [discriminate|]. split; [reflexivity|]. intros H. rewrite H in E. exact E.
+  - intros _. split; [discriminate|]. split; [reflexivity|]. intros _. unfold deep_immut. rewrite Ep. reflexivity.
 Qed.
 
-(* FULL soundness, for every typing oracle and every path: whatever the repaired code
-   accepts is not immutable data. *)
-Lemma fixed_sound_gen : forall e a,
-  is_mutable (gmx e a false) = true -> place pk e <> Immut.
+(* Soundness of the repaired variants.  With every auto-deref level checked (f2 = true) it holds
+   for EVERY path and oracle; with the outermost level only, outside the class [multilevel]. *)
+Lemma fixed_sound_gen f2 : forall e a,
+  f2 = true \/ multilevel pk deep e = false ->
+  is_mutable (get_mutability true f2 pk deep e a false) = true -> place pk deep e <> Immut.
 Proof.
   induction e as [id mu v IH|id mu|i|g|p IH f|p IH|p IH|p IH|p IH|p IH|m p IH|id|id| |id] using path_ind2;
-    intros a H; cbn [get_mutability place] in *; try discriminate.
+    intros a Hc H; cbn [get_mutability place] in *; try discriminate.
   - destruct mu; [discriminate|cbn in H; discriminate].
   - destruct mu; [discriminate|cbn in H; discriminate].
   - destruct (pk (PParam i)) as [[|]|]; destruct a; cbn in H; discriminate.
-  - (* PField *) cbn [orb] in H. apply through_pointer_not_immut in H. destruct H as [Hp Hr].
-    unfold through, is_pointer in *. destruct (pk p) as [[|]|].
-    + destruct (via_immut pk p); discriminate.
+  - (* PField *) cbn [orb] in H. apply tp_mut in H. destruct H as [Hp [Hr Hd]].
+    unfold through_auto, is_pointer in *. cbn [multilevel] in Hc. destruct (pk p) as [[|]|] eqn:Ep.
+    + assert (Hdi : deep_immut pk deep p = false).
+      { destruct Hc as [Hf|Hm]; [apply Hd; subst; reflexivity|].
+        apply orb_false_iff in Hm. tauto. }
+      rewrite Hdi. destruct (via_immut pk deep p); discriminate.
     + congruence.
-    + exact (IH a Hr).
-  - (* PIndex *) cbn [orb] in H. apply through_pointer_not_immut in H. destruct H as [Hp Hr].
-    unfold through, is_pointer in *. destruct (pk p) as [[|]|].
-    + destruct (via_immut pk p); discriminate.
+    + apply (IH a); [|exact Hr]. destruct Hc as [Hf|Hm]; [left; exact Hf|right].
+      apply orb_false_iff in Hm. tauto.
+  - (* PIndex *) cbn [orb] in H. apply tp_mut in H. destruct H as [Hp [Hr Hd]].
+    unfold through_auto, is_pointer in *. cbn [multilevel] in Hc. destruct (pk p) as [[|]|] eqn:Ep.
+    + assert (Hdi : deep_immut pk deep p = false).
+      { destruct Hc as [Hf|Hm]; [apply Hd; subst; reflexivity|].
+        apply orb_false_iff in Hm. tauto. }
+      rewrite Hdi. destruct (via_immut pk deep p); discriminate.
     + congruence.
-    + exact (IH a Hr).
-  - (* PDeref *) apply through_pointer_not_immut in H. destruct H as [Hp _].
-    unfold through. destruct (pk p) as [[|]|]; [destruct (via_immut pk p); discriminate|congruence|discriminate].
-  - exact (IH a H).
-  - exact (IH a H).
-  - exact (IH a H).
+    + apply (IH a); [|exact Hr]. destruct Hc as [Hf|Hm]; [left; exact Hf|right].
+      apply orb_false_iff in Hm. tauto.
+  - (* PDeref *) apply tp_mut in H. destruct H as [Hp _].
+    unfold through. destruct (pk p) as [[|]|]; [destruct (via_immut pk deep p); discriminate|congruence|discriminate].
+  - cbn [multilevel] in Hc. exact (IH a Hc H).
+  - cbn [multilevel] in Hc. exact (IH a Hc H).
+  - cbn [multilevel] in Hc. exact (IH a Hc H).
 Qed.
 
-Theorem fixed_assign_sound e : assign_accepted true pk e = true -> place pk e <> Immut.
-Proof. apply fixed_sound_gen. Qed.
-Theorem fixed_ref_mut_sound e : ref_mut_accepted true pk e = true -> place pk e <> Immut.
-Proof. apply fixed_sound_gen. Qed.
+Theorem fix2_assign_sound e : assign_accepted true true pk deep e = true -> place pk deep e <> Immut.
+Proof. apply fixed_sound_gen. left; reflexivity. Qed.
+Theorem fix2_ref_mut_sound e : ref_mut_accepted true true pk deep e = true -> place pk deep e <> Immut.
+Proof. apply fixed_sound_gen. left; reflexivity. Qed.
+Theorem fix1_assign_sound e :
+  multilevel pk deep e = false -> assign_accepted true false pk deep e = true -> place pk deep e <> Immut.
+Proof. intros H. apply fixed_sound_gen. right; exact H. Qed.
+Theorem fix1_ref_mut_sound e :
+  multilevel pk deep e = false -> ref_mut_accepted true false pk deep e = true -> place pk deep e <> Immut.
+Proof. intros H. apply fixed_sound_gen. right; exact H. Qed.
 
-(* outside the suspect class the repair changes nothing (so completeness carries over) *)
-Lemma through_pointer_id p r :
-  (is_mutable r = true -> pk p <> Some false) -> through_pointer true pk p r = r.
+(* outside the suspect class the repairs change nothing (so completeness carries over) *)
+Lemma through_pointer_id f2 au p r :
+  (is_mutable r = true -> pk p <> Some false /\ (au = true -> deep_immut pk deep p = false)) ->
+  through_pointer true f2 pk deep au p r = r.
 Proof.
-  unfold through_pointer. destruct r; auto. destruct (pk p) as [[|]|]; auto.
-  intros H. exfalso. apply H; reflexivity.
+  unfold through_pointer. destruct r; auto. intros H. destruct (H eq_refl) as [H1 H2].
+  destruct (pk p) as [[|]|] eqn:Ep; [|congruence|].
+  - destruct au; [rewrite (H2 eq_refl)|]; rewrite ?andb_false_r; reflexivity.
+  - unfold deep_immut. rewrite Ep. rewrite andb_false_r. reflexivity.
 Qed.
 
-Lemma fixed_eq_nonsuspect : forall e a d, susp e d = false -> gmx e a d = gm e a d.
+Lemma fixed_eq_nonsuspect f2 : forall e a d,
+  susp e d = false -> get_mutability true f2 pk deep e a d = gm e a d.
 Proof.
   induction e as [id mu v IH|id mu|i|g|p IH f|p IH|p IH|p IH|p IH|p IH|m p IH|id|id| |id] using path_ind2;
     intros a d Hs; try reflexivity.
   - destruct d; [|reflexivity]. cbn [suspect] in Hs. apply orb_false_iff in Hs. destruct Hs as [_ Hv].
     cbn [get_mutability]. exact (IH false true Hv).
-  - (* PField *) destruct d; [reflexivity|]. cbn [suspect] in Hs. cbn [get_mutability orb].
-    unfold is_pointer in *. rewrite (IH a _ Hs).
-    unfold through_pointer at 2. cbn iota. apply through_pointer_id. intros Hm.
+  - (* PField *) destruct d; [reflexivity|]. cbn [suspect] in Hs. apply orb_false_iff in Hs. destruct Hs as [Hdi Hs].
+    cbn [get_mutability orb]. unfold is_pointer in *. rewrite (IH a _ Hs).
+    unfold through_pointer at 2. cbn iota. apply through_pointer_id. intros Hm. split; [|intros _; exact Hdi].
     destruct (pk p) as [[|]|] eqn:Ep; try discriminate.
     pose proof (gm_characterised p a true Hs) as Hc. cbn beta iota in Hc. apply Hc in Hm. congruence.
-  - (* PIndex *) destruct d; [cbn [suspect] in Hs; discriminate|]. cbn [suspect] in Hs. cbn [get_mutability orb].
-    unfold is_pointer in *. rewrite (IH a _ Hs).
-    unfold through_pointer at 2. cbn iota. apply through_pointer_id. intros Hm.
+  - (* PIndex *) destruct d; [cbn [suspect] in Hs; discriminate|]. cbn [suspect] in Hs.
+    apply orb_false_iff in Hs. destruct Hs as [Hdi Hs].
+    cbn [get_mutability orb]. unfold is_pointer in *. rewrite (IH a _ Hs).
+    unfold through_pointer at 2. cbn iota. apply through_pointer_id. intros Hm. split; [|intros _; exact Hdi].
     destruct (pk p) as [[|]|] eqn:Ep; try discriminate.
     pose proof (gm_characterised p a true Hs) as Hc. cbn beta iota in Hc. apply Hc in Hm. congruence.
   - (* PDeref *) destruct d; [cbn [suspect] in Hs; discriminate|]. cbn [suspect] in Hs. cbn [get_mutability].
     rewrite (IH a true Hs). unfold through_pointer at 2. cbn iota. apply through_pointer_id. intros Hm.
+    split; [|discriminate].
     pose proof (gm_characterised p a true Hs) as Hc. cbn beta iota in Hc. apply Hc in Hm. congruence.
   - (* PParen *) cbn [get_mutability]. destruct d; cbn [suspect] in Hs.
     + apply orb_false_iff in Hs. destruct Hs as [_ Hp]. exact (IH a true Hp).
@@ -244,42 +274,50 @@ Proof.
     + exact (IH a false Hs).
 Qed.
 
-Theorem fixed_assign_complete e :
-  susp e false = false -> place pk e = Mut -> assign_accepted true pk e = true.
+Theorem fixed_assign_complete f2 e :
+  susp e false = false -> place pk deep e = Mut -> assign_accepted true f2 pk deep e = true.
 Proof.
-  intros Hs Hp. unfold assign_accepted. rewrite (fixed_eq_nonsuspect e true false Hs).
+  intros Hs Hp. unfold assign_accepted. rewrite (fixed_eq_nonsuspect f2 e true false Hs).
   exact (assign_complete e Hs Hp).
 Qed.
 
-Theorem fixed_ref_mut_complete e :
-  susp e false = false -> place pk e = Mut -> ref_mut_accepted true pk e = true.
+Theorem fixed_ref_mut_complete f2 e :
+  susp e false = false -> place pk deep e = Mut -> ref_mut_accepted true f2 pk deep e = true.
 Proof.
-  intros Hs Hp. unfold ref_mut_accepted. rewrite (fixed_eq_nonsuspect e false false Hs).
+  intros Hs Hp. unfold ref_mut_accepted. rewrite (fixed_eq_nonsuspect f2 e false false Hs).
   exact (ref_mut_complete e Hs Hp).
 Qed.
 
 End Proofs.
 
+Lemma fixed_assign_complete_all : forall f2 pk deep e,
+  suspect pk deep e false = false -> place pk deep e = Mut -> assign_accepted true f2 pk deep e = true.
+Proof. intros f2 pk deep e. apply fixed_assign_complete. Qed.
+Lemma fixed_ref_mut_complete_all : forall f2 pk deep e,
+  suspect pk deep e false = false -> place pk deep e = Mut -> ref_mut_accepted true f2 pk deep e = true.
+Proof. intros f2 pk deep e. apply fixed_ref_mut_complete. Qed.
+
 (* ---- witnesses: the full statement is false of the code as it is ------------------- *)
 
-Definition full_sound : Prop := forall pk e,
-  typed pk e = true -> assign_accepted false pk e = true -> place pk e <> Immut.
-Definition full_complete : Prop := forall pk e,
-  typed pk e = true -> place pk e = Mut -> assign_accepted false pk e = true.
+Definition full_sound : Prop := forall pk deep e,
+  typed pk e = true -> assign_accepted false false pk deep e = true -> place pk deep e <> Immut.
+Definition full_complete : Prop := forall pk deep e,
+  typed pk e = true -> place pk deep e = Mut -> assign_accepted false false pk deep e = true.
 
 (* x :: 5; p := get(^x); p^ = 10     (get returns ^i32) *)
 Definition call_path : path := PDeref (PLocal 1 true (Some (PCall 7))).
 Definition imm_pk (_ : path) : option bool := Some false.   (* every pointer is `^` *)
+Definition no_deep (_ : path) : list bool := [].            (* single-level pointers only *)
 
 Lemma call_witness :
-  typed imm_pk call_path = true /\ assign_accepted false imm_pk call_path = true
-  /\ place imm_pk call_path = Immut /\ suspect imm_pk call_path false = true.
+  typed imm_pk call_path = true /\ assign_accepted false false imm_pk no_deep call_path = true
+  /\ place imm_pk no_deep call_path = Immut /\ suspect imm_pk no_deep call_path false = true.
 Proof. repeat split; vm_compute; reflexivity. Qed.
 
 Lemma full_sound_refuted : ~ full_sound.
 Proof.
   intros H. destruct call_witness as [Ht [Ha [Hp _]]].
-  exact (H imm_pk call_path Ht Ha Hp).
+  exact (H imm_pk no_deep call_path Ht Ha Hp).
 Qed.
 
 (* x :: 5; arr := .[^x]; arr[0]^ = 10 : the array is not a pointer, its elements are `^i32` *)
@@ -287,8 +325,8 @@ Definition index_path : path := PDeref (PIndex (PLocal 1 true (Some PLit))).
 Definition index_pk (p : path) : option bool :=
   match p with PIndex _ => Some false | _ => None end.
 Lemma index_witness :
-  typed index_pk index_path = true /\ assign_accepted false index_pk index_path = true
-  /\ place index_pk index_path = Immut /\ suspect index_pk index_path false = true.
+  typed index_pk index_path = true /\ assign_accepted false false index_pk no_deep index_path = true
+  /\ place index_pk no_deep index_path = Immut /\ suspect index_pk no_deep index_path false = true.
 Proof. repeat split; vm_compute; reflexivity. Qed.
 
 (* x :: 5; q := ^x; p := ^mut q; p^^ = 10 : p is `^mut ^i32`, p^ is `^i32` *)
@@ -305,8 +343,8 @@ Definition deref2_pk (p : path) : option bool :=
   | _ => None
   end.
 Lemma deref2_witness :
-  typed deref2_pk deref2_path = true /\ assign_accepted false deref2_pk deref2_path = true
-  /\ place deref2_pk deref2_path = Immut /\ suspect deref2_pk deref2_path false = true.
+  typed deref2_pk deref2_path = true /\ assign_accepted false false deref2_pk no_deep deref2_path = true
+  /\ place deref2_pk no_deep deref2_path = Immut /\ suspect deref2_pk no_deep deref2_path false = true.
 Proof. repeat split; vm_compute; reflexivity. Qed.
 
 (* (arr: [2]^mut i32) { arr[0]^ = 1 } : rejected although the element is a `^mut` pointer *)
@@ -316,7 +354,7 @@ Definition param_index_pk (p : path) : option bool :=
 Lemma full_complete_refuted : ~ full_complete.
 Proof.
   intros H.
-  assert (E : assign_accepted false param_index_pk param_index_path = true)
+  assert (E : assign_accepted false false param_index_pk no_deep param_index_path = true)
     by (apply H; vm_compute; reflexivity).
   vm_compute in E. discriminate.
 Qed.
@@ -326,15 +364,51 @@ Definition field_path : path := PField (PField (PLocal 1 false (Some PLit)) 1) 2
 Definition field_pk (m : bool) (p : path) : option bool :=
   match p with PField (PLocal _ _ _) _ => Some m | _ => None end.
 Lemma example_ok :
-  suspect (field_pk true) field_path false = false
-  /\ assign_accepted false (field_pk true) field_path = true /\ place (field_pk true) field_path = Mut
-  /\ suspect (field_pk false) field_path false = false
-  /\ assign_accepted false (field_pk false) field_path = false /\ place (field_pk false) field_path = Immut.
+  suspect (field_pk true) no_deep field_path false = false
+  /\ assign_accepted false false (field_pk true) no_deep field_path = true /\ place (field_pk true) no_deep field_path = Mut
+  /\ suspect (field_pk false) no_deep field_path false = false
+  /\ assign_accepted false false (field_pk false) no_deep field_path = false /\ place (field_pk false) no_deep field_path = Immut.
 Proof. repeat split; vm_compute; reflexivity. Qed.
 
 (* the three soundness witnesses are rejected by the repaired variant *)
 Lemma fixed_rejects_witnesses :
-  assign_accepted true imm_pk call_path = false
-  /\ assign_accepted true index_pk index_path = false
-  /\ assign_accepted true deref2_pk deref2_path = false.
+  assign_accepted true false imm_pk no_deep call_path = false
+  /\ assign_accepted true false index_pk no_deep index_path = false
+  /\ assign_accepted true false deref2_pk no_deep deref2_path = false.
 Proof. repeat split; vm_compute; reflexivity. Qed.
+
+(* ---- multi-level auto-deref: /repo 1af504c is still unsound ------------------------------
+   arr :: i32.[1,2,3]; q := ^arr; ptr := ^mut q; ptr[1] = 50      ptr : ^mut ^[3]i32
+   pp := ^mut qs (qs := ^s, s :: S.{..}); pp.v = 60                pp  : ^mut ^S          *)
+Definition ml_local : path := PLocal 2 true (Some (PRef true q_local)).
+Definition ml_index_path : path := PIndex ml_local.
+Definition ml_field_path : path := PField ml_local 1.
+Definition ml_pk (p : path) : option bool :=
+  match p with
+  | PLocal 2 _ _ => Some true
+  | PRef m _ => Some m
+  | PLocal 1 _ _ => Some false
+  | _ => None
+  end.
+Definition ml_deep (p : path) : list bool :=
+  match p with PLocal 2 _ _ => [false] | PRef true _ => [false] | _ => [] end.
+
+Definition fix1_full_sound : Prop := forall pk deep e,
+  typed pk e = true -> assign_accepted true false pk deep e = true -> place pk deep e <> Immut.
+
+Lemma multilevel_witness :
+  typed ml_pk ml_index_path = true
+  /\ assign_accepted true false ml_pk ml_deep ml_index_path = true
+  /\ place ml_pk ml_deep ml_index_path = Immut
+  /\ multilevel ml_pk ml_deep ml_index_path = true
+  /\ assign_accepted true false ml_pk ml_deep ml_field_path = true
+  /\ place ml_pk ml_deep ml_field_path = Immut
+  /\ assign_accepted true true ml_pk ml_deep ml_index_path = false
+  /\ assign_accepted true true ml_pk ml_deep ml_field_path = false.
+Proof. repeat split; vm_compute; reflexivity. Qed.
+
+Lemma fix1_full_sound_refuted : ~ fix1_full_sound.
+Proof.
+  intros H. destruct multilevel_witness as [Ht [Ha [Hp _]]].
+  exact (H ml_pk ml_deep ml_index_path Ht Ha Hp).
+Qed.
